@@ -33,6 +33,12 @@ CHECKS = {
         text="After every scheduling call of the sweep, successful or failing, every procedure alive before the call (source, corpus sub-procedures) is fingerprinted again; any change is decided behaviourally by z3 (old vs new encoding, all inputs within bounds); cursors created before the call must still resolve to the identical node objects; printed text must be byte-identical.",
         note="Behavioural clause is solver-decided; print/cursor identity are concrete observations. Stale analysis caches and cross-process effects are outside.",
         design="5/C07"),
+    "C09": dict(
+        category=MC, engine="loopsym",
+        technique="bounded model checking over pairs of iterations: sequential symbolic execution with an access log; for every parallel-loop instance z3 searches for two different iterations touching the same location with at least one write/reduce; replay by a solver-free interpreter with an access log",
+        text="Programs: corpus procedures with par loops as written, parallelize_loop at every loop position / pairs of positions / inside callees via call_eqv, and the same on one-edit source mutants. Whenever the real backend compiles such a program, z3 decides for all inputs within bounds that no two iterations of any parallel loop conflict (write-write, write-read, reduce-reduce, configuration writes included).",
+        note="Trip counts <= N. States come from the sequential execution, so nothing unreachable is considered. OpenMP runtime is outside.",
+        design="5/C09"),
     "C12": dict(
         category=TV, engine="exprtv",
         technique="lock-step walk of original and simplified LoopIR; per pair of corresponding control expressions a z3 query PC /\\ old != new over unbounded integers (LIA + div/mod by literals); removed branches/loops need PC => (not) cond / hi <= lo; models replayed by a solver-free evaluator",
@@ -64,7 +70,7 @@ NOT_APPLICABLE = [
     ("C18", "Quantifies over CPython hash seeds and process histories; encoding it needs a model of the interpreter's dict/set implementation, not of Exo (DESIGN 6)."),
 ]
 
-PENDING = {p: 'check under construction in this round (design in DESIGN.md section 5); not claimed until its command exists' for p in ['C02','C05','C06','C08','C09','C10','C11','C14','C16']}
+PENDING = {p: 'check under construction in this round (design in DESIGN.md section 5); not claimed until its command exists' for p in ['C02','C05','C06','C08','C10','C11','C14','C16']}
 
 
 def main():
